@@ -207,7 +207,8 @@ def finish_build(rng, ids, objects, tasks, roots):
     if tasks:
         # helper tasks must exist before anyone builds `task.done` atoms
         roots.sort(key=lambda root: root['name'] != 'helpers')
-    return {'objects': objects, 'roots': roots, 'start': 0,
+    # (a negative start time puts the date 0 into the future)
+    return {'objects': objects, 'roots': roots, 'start': rng.choice([0, 0, 0, -2, -0.5]),
             'till': None}, exprs
 
 
